@@ -54,6 +54,7 @@ SourceAccept(S, ev) == ev.id < 256 /\ ~Has(S.srcs, ev.id)
 SignalAccept(S, ev) == /\ ev.id < 256 /\ ev.src < 256 /\ Has(S.srcs, ev.src) /\ ~Has(S.sigs, ev.id)
                        /\ ev.st \in {0, 1} /\ ev.dt \in ValidTypes
                        /\ (ev.st = 0 => ev.rate # 0)
+                       /\ Acceptable(ev.bits, [spd |-> ev.spd, sdf |-> ev.sdf, eps |-> ev.eps, sumdf |-> ev.sumdf, adf |-> 0, udf |-> 0])
 
 \* omission on request (C15): the request takes effect one block later, never for the
 \* first block, and not at all for types of 8 bits or less (constant detection rules there)
